@@ -109,4 +109,29 @@ CHECKS["C14"] = {
             "first), the normaliser (bijective renaming by first occurrence)",
     "technique": "TLC model checking of a TLA+ lifecycle model + replay of TLC-generated histories with trace validation",
 }
+CHECKS["C03"] = {
+    "category": "translation_validation",
+    "text": "all 8x8 source/target type pairs in ten conversion contexts (cast, initialisation, assignment, 32-bit/pair/predicate register, store, "
+            "call argument and return value of generated sub-routines, compound assignment), boolean sources and chains of three conversions are "
+            "compiled in both layouts and evaluated by TLC against C11 6.3.1.3; 8-bit sources exhaustively",
+    "note": TB,
+    "technique": "TLC translation validation of generated conversion programs",
+}
+CHECKS["C07"] = {
+    "category": "translation_validation",
+    "text": "the operand catalogue (register letters x access letters x single/pair x V/N, explicit registers and pairs, aliases, immediates, loads/stores, "
+            "JUMP, PC) is enumerated by TLC; each spelling is compiled in read / read-.new / write / read-modify-write programs and TLC executes the "
+            "emitted IL on states where every bank has old # new: resource key (slot letter, class, number, alias), .new flag, width and signedness "
+            "all show in the observed values; Sorts additionally checks the width given to every WRITE_REG",
+    "note": TB + "; explicit pairs overlapping single registers are modelled as separate resources",
+    "technique": "TLC translation validation over a TLA+ operand catalogue",
+}
+CHECKS["C09"] = {
+    "category": "translation_validation",
+    "text": "literal spellings (dec/hex x suffixes x values around 2^7..2^64-1) in type-revealing contexts, folding of literal pairs under 10 operators, "
+            "constant-condition ?: whose dead arm shares operands with live code, and sizeof of every operand kind are compiled and evaluated by TLC "
+            "against the C semantics (literal typing per C11 6.4.4.1); literal division by zero must be rejected",
+    "note": TB,
+    "technique": "TLC translation validation of generated constant-folding programs",
+}
 NOT_YET = {}
